@@ -55,26 +55,26 @@ def self_field_assigns(body, field):
     return out
 
 
-def t1(prog, rep):
+def t1(prog, rep, rule="T1"):
     body = prog.main_body(CV + "NextSubmission::try_add")
     # `compressed_size <= MAX` in any spelling (operands swapped, negated `>`)
-    le = [o for o in ordered(body, r"compressed_size", r"^const\(") if "try_into_payload(" in o[1]] \
-        or ordered(body, r"compressed_size", r".")
+    le = [o for o in ordered(body, r"(?<!un)compressed_size", r"^const\(") if "try_into_payload(" in o[1]] \
+        or ordered(body, r"(?<!un)compressed_size", r".")
     ai = self_field_assigns(body, "input")
     ap = self_field_assigns(body, "payload")
-    rep.floor("T1", len(ai), 1, "assignments to self.input in try_add")
-    rep.floor("T1", len(ap), 1, "assignments to self.payload in try_add")
+    rep.floor(rule, len(ai), 1, "assignments to self.input in try_add")
+    rep.floor(rule, len(ap), 1, "assignments to self.payload in try_add")
     if not le:
-        rep.fail("T1", "size-compare", "`compressed_size <= MAX_PAYLOAD_SIZE_BYTES` not found",
+        rep.fail(rule, "size-compare", "`compressed_size <= MAX_PAYLOAD_SIZE_BYTES` not found",
                  body.describe())
         return
     c, size_root, bound_root, within, _beyond = le[0]
-    rep.check(bound_root == f"const({MAX_PAYLOAD})", "T1", "bound=1_000_000",
+    rep.check(bound_root == f"const({MAX_PAYLOAD})", rule, "bound=1_000_000",
               f"payload bound compared against {bound_root}", f"{body.file}:{c.line}")
-    rep.check("try_into_payload(" in size_root, "T1", "compare-candidate-payload",
+    rep.check("try_into_payload(" in size_root, rule, "compare-candidate-payload",
               f"compares {size_root[:80]}", f"{body.file}:{c.line}")
     for (i, rv, line) in ai + ap:
-        rep.check(body.must_pass_edges(set(within), i), "T1", f"commit<=within-bound:{line}",
+        rep.check(body.must_pass_edges(set(within), i), rule, f"commit<=within-bound:{line}",
                   "the next submission is replaced by a candidate whose compressed payload was not "
                   "checked against the maximum payload size", f"{body.file}:{line}")
     # both assigned on the same paths
@@ -84,7 +84,7 @@ def t1(prog, rep):
         oks = result_blocks(body, "Ok")
         ok = bool(oks) and all(body.must_pass_block(ai[0][0], o) and body.must_pass_block(ap[0][0], o)
                                for o in oks)
-        rep.check(ok, "T1", "ok=>input+payload-committed",
+        rep.check(ok, rule, "ok=>input+payload-committed",
                   "try_add can report success without committing both the input and the payload",
                   body.describe())
         ri = describe(body, ai[0][1])
@@ -93,21 +93,32 @@ def t1(prog, rep):
         tip = body.calls_to(CV + "Input::try_into_payload")
         ok = bool(ext) and bool(tip) and "try_into_payload(" in rp and \
             body.root(ext[0].args[0]) == ri and ri in body.root(tip[0].args[0])
-        rep.check(ok, "T1", "payload-derived-from-committed-input",
+        rep.check(ok, rule, "payload-derived-from-committed-input",
                   f"committed input `{ri[:50]}` and payload `{rp[:70]}` do not come from the same "
                   f"candidate (payload must be try_into_payload of the input that includes the "
                   f"block)", body.describe())
         if ext:
             a = [body.root(x) for x in ext[0].args]
             rep.check("block" in a[1] and "rollup_filter" in a[2] and a[0].startswith("clone(self.input")
-                      or a[0] == "self.input" or "input_candidate" in a[0], "T1", "candidate=input+block",
+                      or a[0] == "self.input" or "input_candidate" in a[0], rule, "candidate=input+block",
                       f"candidate built as extend({[x[:30] for x in a]})", ext[0].where())
     # Err paths assign nothing: assignments are all behind the true edge (checked above); Err
     # blocks must not be reachable from an assignment
     errs = set(result_blocks(body, "Err"))
     bad = [ln for (i, rv, ln) in ai + ap if errs & body.reachable(i)]
-    rep.check(not bad, "T1", "refusal-mutates-nothing",
-              "try_add can modify the next submission and still refuse the block", body.describe())
+    # ... and neither does any other in-place modification of `self` (a `&mut self.x.y` handed
+    # to a call, e.g. a set insert, or an assignment to one of its fields): each must lie behind
+    # the within-bound edge and must not be able to reach a refusal
+    n_other = 0
+    for (i, line, what) in body.mut_uses(1):
+        if "metrics" in what:
+            continue
+        n_other += 1
+        if not body.must_pass_edges(set(within), i) or errs & body.reachable(i):
+            bad.append(f"{what} (L{line})")
+    rep.check(not bad, rule, "refusal-mutates-nothing",
+              f"try_add can modify the next submission and still refuse the block: {bad[:3]}",
+              body.describe())
 
 
 def describe(body, rv):
@@ -161,12 +172,23 @@ def t3(prog, rep):
                   "remove block metadata)", c.where())
         rep.check("split_for_celestia(block)" in body.root(c.args[1]) and ".0" in body.root(c.args[1]),
                   "T3", "metadata=block-split", f"pushes {body.root(c.args[1])[:70]}", c.where())
+        # ... and exactly that: the raw metadata is not edited between the split and the push
+        # (a filter that prunes `rollup_ids` makes the metadata fail its own proof downstream)
+        edits = [f"{what} (L{line})" for l in body.move_chain(c.args[1])
+                 for (_bb, line, what) in body.mut_uses(l)]
+        rep.check(not edits, "T3", "metadata-unedited",
+                  f"the block's metadata is modified in place before it is added: {edits[:3]}",
+                  c.where())
     for c in rpush:
         rep.check(be is not None and body.must_pass_edges(set(be[0]), c.bb), "T3",
                   "rollup-data<=filter-allows",
                   "rollup data is added although the rollup filter excludes it", c.where())
         rep.check("split_for_celestia(block)" in body.root(c.args[1]), "T3", "rollup-data=block-split",
                   f"pushes {body.root(c.args[1])[:70]}", c.where())
+        edits = [f"{what} (L{line})" for l in body.move_chain(c.args[1])
+                 for (_bb, line, what) in body.mut_uses(l)]
+        rep.check(not edits, "T3", "rollup-data-unedited",
+                  f"a rollup's data is modified in place before it is added: {edits[:3]}", c.where())
     if inc:
         a = body.root(inc[0].args[1])
         rep.check(a.startswith("rollup_id(") and "split_for_celestia(block)" in a, "T3",
